@@ -557,6 +557,16 @@ pub fn run(tier: Tier) -> i32 {
         ("on-use/attribute", r##"<svg><rect id="a" wh="10"/><use href="#a" x="15" y="5" text="hi"/></svg>"##, "hi", Some((20., 10.)), &[], &[]),
         ("on-use/content", r##"<svg><rect id="a" wh="10"/><use href="#a" x="15" y="5">hi</use></svg>"##, "hi", Some((20., 10.)), &[], &[]),
         ("reuse-of-text/xy", r##"<svg><specs><text id="t" text="$m"/></specs><reuse href="#t" m="hello" x="5" y="6"/></svg>"##, "hello", Some((5., 6.)), &[], &[]),
+        // third review round
+        ("pieces/space-between-cdata", r##"<svg><rect xy="10 20" wh="30 10"><![CDATA[a <]]> <![CDATA[> b]]></rect></svg>"##, "a < > b", Some((25., 25.)), &[], &[]),
+        ("pieces/space-between-cdata-and-comment", r##"<svg><text xy="0 30"><![CDATA[x]]> <!-- c -->y</text></svg>"##, "x y", Some((0., 30.)), &[], &[]),
+        ("pieces/layout-around-cdata", "<svg><rect xy=\"10 20\" wh=\"30 10\">\n  <![CDATA[a]]>\n</rect></svg>", "a", Some((25., 25.)), &[], &[]),
+        ("shape-with-child/text-before", r##"<svg><rect xy="10 20" wh="30 10">hello<title>tip</title></rect></svg>"##, "hello", Some((25., 25.)), &[], &[]),
+        ("shape-with-child/text-after", r##"<svg><rect xy="10 20" wh="30 10"><title>tip</title>hello</rect></svg>"##, "hello", Some((25., 25.)), &[], &[]),
+        ("shape-with-child/cdata", r##"<svg><rect xy="10 20" wh="30 10"><title>tip</title><![CDATA[a & b]]></rect></svg>"##, "a & b", Some((25., 25.)), &[], &[]),
+        ("shape-with-child/line", r##"<svg><line xy1="0 60" xy2="10 60" text-loc="c">hello<animate attributeName="x2" to="5"/></line></svg>"##, "hello", Some((5., 60.)), &[], &[]),
+        ("reuse-evaluated-once/group-parameter", r##"<svg><var x="9"/><specs><g id="grp" lbl="dflt"><rect wh="20" text="$lbl"/></g></specs><reuse href="#grp" lbl="cost \$x"/></svg>"##, "cost $x", Some((10., 10.)), &[], &[]),
+        ("reuse-evaluated-once/template-with-title", r##"<svg><var m="hello"/><specs><rect id="t" wh="20" text="\$m"><title>x</title></rect></specs><reuse href="#t"/></svg>"##, "$m", Some((10., 10.)), &[], &[]),
         ("text-style/keeps-style", r##"<svg><text xy="1 2" style="fill:red" text-style="font-weight:bold" text="hi"/></svg>"##, "hi", Some((1., 2.)), &[], &[("style", "fill:red"), ("style", "font-weight:bold")]),
     ];
     let st = run_space(scenarios.len(), |i| {
